@@ -1300,8 +1300,9 @@ impl Sim {
                         } else if must_store {
                             let p = if *n == rn || !nd.has_graph { "C01" } else { "C10" };
                             self.viol(p, "gradient_missing", class.clone(), format!("node {} (reachable through tracked edges) has no gradient after the pass", n));
-                            if !nd.has_graph && *n != rn {
-                                self.viol("C09", "gradient_missing", class.clone(), format!("tracked leaf node {} received no gradient", n));
+                            if *n != rn {
+                                // an array that was tracked (a leaf, or explicitly `.tracked()`) when it was used
+                                self.viol("C09", "gradient_missing", class.clone(), format!("node {} was tracked when it was used but received no gradient", n));
                             }
                         }
                     }
@@ -1332,6 +1333,15 @@ impl Sim {
             // Of all value mismatches report the root-most node (largest id: ids are topological);
             // mismatches further down are consequences of the wrong adjoint delivered from there.
             if let Some((n, class, e, bc, first)) = mism.into_iter().max_by_key(|m| m.0) {
+                // the same array consumed through a tracked and through an untracked handle inside this graph:
+                // a wrong value there means the flags did not decide where the gradient went
+                let mixed = reach.iter().any(|c| {
+                    let cd = &self.g.nodes[*c];
+                    cd.has_graph && cd.edges.iter().any(|e1| !e1.tracked && reach.iter().any(|c2| self.g.nodes[*c2].has_graph && self.g.nodes[*c2].edges.iter().any(|e2| e2.tracked && e2.node == e1.node)))
+                });
+                if mixed {
+                    self.viol("C09", "mixed_handle_flow", class.clone(), format!("gradient of node {} in a graph that uses one array through tracked and untracked handles: {}", n, e));
+                }
                 if bc {
                     self.viol("C03", "broadcast_sum", class.clone(), format!("gradient of node {}: {}", n, e));
                 }
